@@ -290,18 +290,17 @@ theorem analyse_sound (U : LS) : ∀ (e : Expr), wf e = true → ∀ ls ∈ poss
     exact ih (by simpa [wf] using hw) ls (by simpa [possible] using h)
   | countValuesBy g v e ih =>
     intro hw ls h
-    simp only [wf, Bool.and_eq_true, bne_iff_ne, ne_eq] at hw
     simp only [possible, List.mem_map] at h
     obtain ⟨ls', hls', rfl⟩ := h
-    obtain ⟨s, hs, hacc⟩ := ih hw.2 ls' hls'
-    refine ⟨excludeMetricName (guaranteeLabel (includeLabel (aggBySrc g s) [v]) [v]) true g,
+    obtain ⟨s, hs, hacc⟩ := ih (by simpa [wf] using hw) ls' hls'
+    refine ⟨guaranteeLabel (includeLabel (excludeMetricName (aggBySrc g s) true g) [v]) [v],
       by simp only [analyse, List.mem_map]; exact ⟨s, hs, rfl⟩, fun n hn => ?_⟩
     rcases List.mem_cons.mp hn with rfl | hn'
-    · exact canHave_excludeMetricName true g (canHave_guaranteeLabel (Or.inr (by simp))) (Or.inl hw.1)
+    · exact canHave_guaranteeLabel (Or.inr (by simp))
     · have hn'' := List.mem_filter.mp hn'
       have hg : n ∈ g := by simpa using hn''.2
-      refine canHave_excludeMetricName true g
-        (canHave_guaranteeLabel (Or.inl (canHave_includeLabel (Or.inl (canHave_aggBySrc g (hacc n hn''.1) hg))))) ?_
+      refine canHave_guaranteeLabel (Or.inl (canHave_includeLabel (Or.inl
+        (canHave_excludeMetricName true g (canHave_aggBySrc g (hacc n hn''.1) hg) ?_))))
       by_cases hname : n = nameL
       · exact Or.inr ⟨rfl, hname ▸ hg⟩
       · exact Or.inl hname
